@@ -2,7 +2,10 @@
 from hypothesis import strategies as st
 
 import harness.compat  # noqa: F401
+from harness.build import mkcollection
 from harness.core import Leg, Prop
+from inscripta.biocantor.exc import InvalidQueryError
+from inscripta.biocantor.parent import Parent
 from inscripta.biocantor.util.bins import bins
 
 # re-typed from the module header / kent binRange.c (extended offsets, first shift 17, next shift 3, 5 levels <= 2^29)
@@ -177,6 +180,119 @@ def strat_never_hides(draw, tier="quick"):
     return {"qs": qs, "qe": qe, "s": s, "e": e, "fmt": fmt}
 
 
+# ------------------------------------------------------------------ integrated: the pre-filter inside range queries
+# "bin-based pre-filtering can never change the answer of a range query": a collection whose children are 1..6 bp long and sit
+# in the band +-3 around a bin boundary b, asked every range with both ends in b-4..b+4 (plus far ends), answers = brute force.
+
+def band_collection(b):
+    """children of every shape in the band around b; two far anchors widen the collection's own bounds"""
+    fcs, genes, vcs = [], [], []
+    n = 0
+    for a in range(-3, 4):
+        for c in range(a + 1, 4):
+            if b + a < 0:
+                continue
+            n += 1
+            fcs.append({"features": [{"blocks": [[b + a, b + c]], "strand": "+" if n % 2 else "-", "feature_id": "f%d" % n}],
+                        "feature_collection_id": "fc%d" % n, "qualifiers": {}})
+    for i, (a, c) in enumerate([(-1, 0), (0, 1), (-1, 1), (0, 2), (-2, 0), (1, 2)]):
+        if b + a < 0:
+            continue
+        genes.append({"transcripts": [{"exons": [[b + a, b + c]], "strand": "+", "transcript_id": "t%d" % i, "transcript_type": "ncRNA"}],
+                      "gene_id": "g%d" % i, "gene_type": "ncRNA", "qualifiers": {}})
+    if b >= 1:
+        # a gene whose two isoforms lie on either side of the boundary, and a coding one-codon gene ending at b
+        genes.append({"transcripts": [{"exons": [[b - 1, b]], "strand": "+", "transcript_id": "tL", "transcript_type": "ncRNA"},
+                                      {"exons": [[b, b + 1]], "strand": "+", "transcript_id": "tR", "transcript_type": "ncRNA"}],
+                      "gene_id": "gLR", "gene_type": "ncRNA", "qualifiers": {}})
+    for i, a in enumerate((-1, 0, 1)):
+        if b + a < 0:
+            continue
+        vcs.append({"variants": [{"start": b + a, "end": b + a + 1, "sequence": "G", "variant_type": "SNV", "variant_id": "v%d" % i}],
+                    "variant_collection_id": "vc%d" % i, "qualifiers": {}})
+    lo = max(0, b - 2 ** 18)
+    hi = b + 2 ** 18
+    if lo + 2 <= b - 4:
+        fcs.append({"features": [{"blocks": [[lo, lo + 2]], "strand": "+", "feature_id": "flo"}], "feature_collection_id": "fclo", "qualifiers": {}})
+    fcs.append({"features": [{"blocks": [[hi, hi + 2]], "strand": "+", "feature_id": "fhi"}], "feature_collection_id": "fchi", "qualifiers": {}})
+    return {"genes": genes, "feature_collections": fcs, "variant_collections": vcs, "name": "band", "qualifiers": {}}
+
+
+def child_spans(o):
+    out = []
+    for g in o["genes"]:
+        out.append((g["gene_id"], min(t["exons"][0][0] for t in g["transcripts"]), max(t["exons"][-1][1] for t in g["transcripts"])))
+    for c in o["feature_collections"]:
+        out.append((c["feature_collection_id"], min(f["blocks"][0][0] for f in c["features"]), max(f["blocks"][-1][1] for f in c["features"])))
+    for c in o["variant_collections"]:
+        out.append((c["variant_collection_id"], min(v["start"] for v in c["variants"]), max(v["end"] for v in c["variants"])))
+    return out
+
+
+def result_ids(res):
+    return sorted([g.gene_id for g in res.genes] + [c.feature_collection_id for c in res.feature_collections]
+                  + [c.variant_collection_id for c in res.variant_collections])
+
+
+def check_prefilter(spec, ctx):
+    b = spec["b"]
+    o = band_collection(b)
+    parent = Parent(id="chr1", sequence_type="chromosome") if spec.get("parent") == "id_only" else None
+    coll = mkcollection(o, parent)
+    spans = child_spans(o)
+    # the bin stored on every child and grandchild at construction is the reference bin of its span
+    for child in coll.iter_children():
+        for x in ([child] if "bin" in vars(child) else []) + list(child.iter_children()):
+            ctx.eq("stored_bin", x.bin, ref_bin(x.start, x.end), extra={"span": [x.start, x.end], "type": type(x).__name__})
+    cs, ce = coll.start, coll.end
+    near = [b + d for d in range(-4, 5) if b + d >= 0]
+    starts = sorted(set(near + [cs, max(0, b - 2 ** 17 - 1), max(0, b - 2 ** 17), max(0, b - 2 ** 17) + 1]))
+    ends = sorted(set(near + [ce, b + 2 ** 17 - 1, b + 2 ** 17, b + 2 ** 17 + 1]))
+    nq = 0
+    for qs in starts:
+        for qe in ends:
+            if not (cs <= qs < qe <= ce):
+                continue
+            for cw in (True, False):
+                nq += 1
+                try:
+                    res = coll.query_by_position(qs, qe, completely_within=cw)
+                except InvalidQueryError as e:
+                    ctx.fail("valid_band_query_refused", {"query": [qs, qe], "cw": cw, "err": str(e)[:80]})
+                    continue
+                if cw:
+                    exp = sorted(i for i, s_, e_ in spans if qs <= s_ and e_ <= qe)
+                else:
+                    exp = sorted(i for i, s_, e_ in spans if max(qs, s_) < min(qe, e_))
+                got = result_ids(res)
+                if got != exp:
+                    ctx.fail("prefiltered_query[cw=%d]" % cw, {"b": b, "query": [qs - b, qe - b], "hidden": sorted(set(exp) - set(got))[:4],
+                                                                "extra": sorted(set(got) - set(exp))[:4]})
+                if cw and qs > 0 and exp:
+                    ctx.label("prefilter_active_nonempty")
+                if cw and qe == b + 1:
+                    ctx.label("query_ends_one_past_boundary")
+                if cw and qs == b - 1:
+                    ctx.label("query_starts_one_before_boundary")
+    ctx.nt("level%d" % spec["level"])
+    ctx.label("queries:%d" % (nq // 100 * 100))
+
+
+def enum_prefilter(tier, shard, nshards):
+    cnt = 6 if tier == "quick" else 24
+    i = 0
+    seen = set()
+    for level in range(5):
+        for b in boundaries(level, cnt):
+            if b == 0 or b in seen:
+                continue
+            seen.add(b)
+            for parent in ("none", "id_only") if tier != "quick" or level == 0 else ("none",):
+                i += 1
+                if i % nshards == shard:
+                    yield {"b": b, "level": level, "parent": parent}
+
+
 def pred_end_on_boundary(spec, clause, detail):
     s0, e0 = to0(spec["s"], spec["e"], spec["fmt"])
     return e0 % (1 << FIRST) == 0
@@ -196,6 +312,11 @@ PROP = Prop(
         Leg("never_hides", check_never_hides, strategy=strat_never_hides, n_quick=6000, n_thorough=60000, shards_quick=4,
             must_hit=["contained", "overlapping"],
             rule="pairs (query range, interval) where the interval is contained in / cut on the left / cut on the right / contains the query; boundary-biased; bins(I, one=True) must be in bins(Q, one=False)"),
+        Leg("prefilter_bands", check_prefilter, enumerate=enum_prefilter, exhaustive=True, shards_quick=16, shards_thorough=16,
+            must_hit=["prefilter_active_nonempty", "query_ends_one_past_boundary", "query_starts_one_before_boundary"],
+            rule="integrated: for boundaries of every level (incl. 2^29), a sequence-less AnnotationCollection holding features of EVERY span inside b-3..b+3, "
+                 "1-2 bp genes (one with isoforms on either side of b), SNVs at b-1,b,b+1 and two far anchors; ALL query ranges with both ends in b-4..b+4 "
+                 "plus ends 2^17 away and the collection bounds, completely_within on/off; answer = brute-force membership; stored .bin of every child = reference bin"),
     ],
     rule="Oracle: smallest standard bin whose extent contains the 0-based half-open interval (offsets 4681/585/73/9/1, 2^17*8^level), re-typed; "
          "never-hides is judged independently of that. Non-trivial: an end point within +-3 of a 2^17 multiple. Distinct = (start,end,fmt).",
